@@ -375,6 +375,15 @@ def run(ctx):
                     ok = None
                     detail = "cannot relate the value of key %r to an attribute derived from the parameter" % k
             ctx.ob("C11.d", "Timegrid", "writer key %s" % k, ok, detail, node=v)
+            # ... and the value is written as it is: the reader hands it to the constructor unchanged, so any re-spelling on the way out
+            # (a canonical form, a rounding) makes the loaded grid differ from the saved one in that parameter
+            calls = [c for c in au.walk_local(v) if isinstance(c, ast.Call) and au.method_name(c) not in ("get", "str", "isinstance", "getattr")]
+            attrs_conv = [c for c in au.walk_local(v) if isinstance(c, ast.Attribute) and isinstance(c.value, ast.Call) and au.method_name(c.value) not in ("get", "getattr")]
+            ctx.ob("C11.d", "Timegrid", "value of writer key %s is the attribute itself" % k, not (calls or attrs_conv),
+                   "the value written for %r is a function of the attribute (%s): the reader passes it to Timegrid(...) as it is, so the loaded grid is "
+                   "built from another value than the saved grid had - a frequency 'd' comes back as 'D', 'W' as 'W-SUN': the time points agree, but "
+                   "frequencies are compared as strings (an asset with freq 'd' no longer matches the grid: ValueError in the CHP set-up, "
+                   "pd.Timedelta(1, 'W-SUN') raises)" % (k, au.short((calls or attrs_conv)[0], 50) if (calls or attrs_conv) else ""), node=v)
         for q in params:
             if q in TIMEGRID_PARAM_EXCEPTIONS:
                 continue
